@@ -41,6 +41,7 @@ type Entry struct {
 	ReachE   int    // same, ignoring text nodes hanging directly off proper ancestors
 	Shape    string // why the result is malformed
 	Stack    string // panic stack
+	raw      []byte // the slice Read returned (to detect later modification)
 }
 
 func (e Entry) Terminal() bool {
@@ -187,6 +188,7 @@ func ReadOnce(tr omniparser.Transform) (e Entry) {
 	case err == nil && b != nil:
 		e.Class = ClsRecord
 		e.Out = string(b)
+		e.raw = b
 		if !utf8.Valid(b) {
 			e.Class, e.Shape = ClsMalformed, "record bytes are not valid UTF-8"
 		} else if !json.Valid(b) {
@@ -295,13 +297,33 @@ func DriveSchema(schema omniparser.Schema, w *world.World, rd io.Reader, o Opts,
 		tr.Entries = append(tr.Entries, e)
 		if o.KeepOnlyLast > 0 && len(tr.Entries) > o.KeepOnlyLast {
 			old := &tr.Entries[len(tr.Entries)-1-o.KeepOnlyLast]
-			old.Out, old.RawJSON, old.Err = "", "", ""
+			old.Out, old.RawJSON, old.Err, old.raw = "", "", "", nil
 		}
 		if e.Terminal() || e.Class == ClsMalformed {
 			break
 		}
 	}
+	CheckRetained(tr)
 	return tr
+}
+
+// Intact reports whether the slice Read returned for this entry still holds what it held then.
+func (e *Entry) Intact() bool {
+	return e.raw == nil || e.Class != ClsRecord || string(e.raw) == e.Out
+}
+
+// CheckRetained verifies that the byte slices returned by earlier Reads still hold what they
+// held when they were returned (a caller may keep them): a slice modified by a later Read is
+// state leaking from one record into another.
+func CheckRetained(tr *Transcript) {
+	for i := range tr.Entries {
+		e := &tr.Entries[i]
+		if e.raw != nil && e.Class == ClsRecord && e.Out != "" && string(e.raw) != e.Out {
+			e.Class = ClsMalformed
+			e.Shape = fmt.Sprintf("the bytes returned by Read #%d were modified by a later Read: returned %s, now %s", i+1, clip(e.Out, 120), clip(string(e.raw), 120))
+		}
+		e.raw = nil
+	}
 }
 
 // FirstDiff returns the index of the first differing key, or -1.
